@@ -142,11 +142,11 @@ func UserKeytab(k *refkdc.KDC, user string) (*keytab.Keytab, []byte, error) {
 }
 
 // Wire attaches a KDC to the addresses in the simulated network.
-func Wire(n *world.Net, k *refkdc.KDC, addrs []string, pt func(req []byte) *refkdc.Perturb) {
+func Wire(n *world.Net, k *refkdc.KDC, addrs []string, pt func(req []byte) []refkdc.Perturb) {
 	k.TaskID = func() int { return simrt.Cur().ID }
 	for _, a := range addrs {
 		n.Resp[a] = func(proto, addr string, req []byte) []byte {
-			var p *refkdc.Perturb
+			var p []refkdc.Perturb
 			if pt != nil {
 				p = pt(req)
 			}
